@@ -29,7 +29,9 @@ structure Mess where
   src : Option Nat := none         -- src_actor_
   dst : Option Nat := none         -- dst_actor_
   payload : Option Nat := none     -- payload_
-  hasBuf : Bool := false           -- dst_buff_ != nullptr
+  hasBuf : Bool := false           -- the getter gave a buffer: `set_dst_buff(buff != nullptr, …)` in iget
+  copied : Bool := false           -- finish() has reset `dst_buff_ = nullptr` after the copy:
+                                   --   `dst_buff_ != nullptr`  <->  `hasBuf && !copied`
   delivered : Option Nat := none   -- what `*(void**)dst_buff_ = payload_` wrote
   writes : Nat := 0                -- ghost: how many times `*(void**)dst_buff_ = payload_` was executed
   detached : Bool := false         -- detached_
@@ -55,18 +57,28 @@ def findMatching (t : MType) : List Mess → Option (Mess × List Mess)
       | some (x, rest) => some (x, m :: rest)
 
 /-- `start()` on a READY mess sets RUNNING and calls `finish()`:
-    `if RUNNING then DONE; … if (DONE && payload_ != nullptr && dst_buff_ != nullptr) *(void**)dst_buff_ = payload_;` -/
+    `if RUNNING then DONE; … if (DONE && payload_ != nullptr && dst_buff_ != nullptr) { *(void**)dst_buff_ = payload_;
+     dst_buff_ = nullptr; }` — the copy is done once: `dst_buff_` is reset with it. -/
 def Mess.finish (m : Mess) : Mess :=
   let m := { m with state := .done }
-  if m.payload.isSome && m.hasBuf then { m with delivered := m.payload, writes := m.writes + 1 } else m
+  if m.payload.isSome && m.hasBuf && !m.copied then
+    { m with delivered := m.payload, writes := m.writes + 1, copied := true }
+  else m
 
 /-- `finish()` called again on an object that already left the queue: `ActivityImpl::wait_for` and `ActivityImpl::test`
-    call `finish()` whenever `state_ != WAITING && state_ != RUNNING`.  MessImpl has no `copied_` flag (CommImpl has one):
-    `if (get_state() == State::DONE && payload_ != nullptr && dst_buff_ != nullptr) *(void**)(dst_buff_) = payload_;`
-    is executed again by every later wait()/test() of either side — also after the getter has returned and its buffer
-    (a local of `MessageQueue::get<T>()`) is gone.
-    AFTER THE PROPOSED FIX (props/C09/proposed_fix.diff: `dst_buff_ = nullptr` once copied) this becomes `m`. -/
+    call `finish()` whenever `state_ != WAITING && state_ != RUNNING`, i.e. on every later wait()/test() of either side —
+    also after the getter has returned and its buffer (a local of `MessageQueue::get<T>()`) is gone.  The same
+    `if (get_state() == State::DONE && payload_ != nullptr && dst_buff_ != nullptr) { copy; dst_buff_ = nullptr; }` runs;
+    `mq_refinish_noop` (Props.lean) proves that it never copies again. -/
 def Mess.refinish (m : Mess) : Mess :=
+  if m.state = .done && m.payload.isSome && m.hasBuf && !m.copied then
+    { m with delivered := m.payload, writes := m.writes + 1, copied := true }
+  else m
+
+/-- PRE-FIX variant (kept for the regression theorem `mq_written_once_prefix_regression`): before the fix
+    "MessImpl::finish() copied the payload again on every later wait()/test()" `finish()` did not reset `dst_buff_`
+    (and MessImpl has no `copied_` flag as CommImpl has), so the copy was executed again. -/
+def Mess.refinishPre (m : Mess) : Mess :=
   if m.state = .done && m.payload.isSome && m.hasBuf then { m with delivered := m.payload, writes := m.writes + 1 }
   else m
 
@@ -123,6 +135,16 @@ def step (s : MQ) : Ev → MQ
   | .refinish id => refinish s id
 
 def run (h : List Ev) : MQ := h.foldl step {}
+
+/-- PRE-FIX variant of the queue (regression only): the same calls, `finish()` re-copying on a later wait()/test() -/
+def refinishPre (s : MQ) (id : Nat) : MQ :=
+  { next := s.next + 1, queue := s.queue, fin := s.fin.map (fun m => if m.id == id then m.refinishPre else m) }
+
+def stepPre (s : MQ) : Ev → MQ
+  | .refinish id => refinishPre s id
+  | e => step s e
+
+def runPre (h : List Ev) : MQ := h.foldl stepPre {}
 
 /-- look an object up by id (queue first, then the finished ones) -/
 def MQ.lookup (s : MQ) (id : Nat) : Option Mess :=
